@@ -624,8 +624,12 @@ func ruleC02Case(c *Ctx) {
 		}
 		if !isExpr || len(a) < 3 {
 			// every success path answers with an evaluated branch (or the NULL literal's value)
-			if p.Ret[1].Nil && !(p.Ret[0].Nil && func() bool { ne, has := tb.namesOnPath(p)["noElse"]; return has && isTrueC(ne) }()) {
-				why = append(why, "a success path answers with "+avString(p.Ret[0])+" instead of evaluating a WHEN value or the ELSE expression")
+			if p.Ret[1].Nil {
+				if ne, has := tb.namesOnPath(p)["noElse"]; p.Ret[0].Nil && has && isTrueC(ne) {
+					sawNull = true // NULL written directly instead of evaluating a NULL literal
+				} else {
+					why = append(why, "a success path answers with "+avString(p.Ret[0])+" instead of evaluating a WHEN value or the ELSE expression")
+				}
 			}
 			continue
 		}
@@ -697,6 +701,17 @@ func ruleC02Case(c *Ctx) {
 		if cst, isC := r.Results[0].(*ssa.Const); isC && cst.IsNil() {
 			if c1, is1 := r.Results[1].(*ssa.Const); !is1 || !c1.IsNil() {
 				return
+			}
+			// (nil, nil): NULL, allowed only where no ELSE exists (dominated by expr.Else == nil)
+			for _, fc := range relFacts(factsAt(r.Block())) {
+				if fc.r != relEQ {
+					continue
+				}
+				if y, isY := fc.y.(*ssa.Const); isY && y.IsNil() {
+					if ft := NewTB().Of(fc.x); ft.Op == "field" && ft.Name == "Else" {
+						return
+					}
+				}
 			}
 		}
 		why = append(why, "the return at "+c.P.Pos(r.Pos())+" answers with "+NewTB().Of(r.Results[0]).String()+", which is neither an evaluated branch nor an error")
